@@ -428,6 +428,12 @@ pub assume_specification<T, U, F>[Option::<T>::map_or](a: Option<T>, d: U, f: F)
     ensures
         a is Some ==> f.ensures((a->0,), r),
         a is None ==> r == d;
+pub assume_specification<T, U, D, F>[Option::<T>::map_or_else](a: Option<T>, d: D, f: F) -> (r: U)
+    where D: FnOnce() -> U + core::marker::Destruct, F: FnOnce(T) -> U + core::marker::Destruct,
+    requires a is Some ==> f.requires((a->0,)), a is None ==> d.requires(()),
+    ensures
+        a is Some ==> f.ensures((a->0,), r),
+        a is None ==> d.ensures((), r);
 pub assume_specification<T, E, U, F>[Result::<T, E>::and_then](a: Result<T, E>, f: F) -> (r: Result<U, E>)
     where F: FnOnce(T) -> Result<U, E> + core::marker::Destruct,
     requires a is Ok ==> f.requires((a->Ok_0,)),
